@@ -2014,6 +2014,21 @@ func (r *Repository) ResolveRevision(in plumbing.Revision) (*plumbing.Hash, erro
 			}
 
 			commit = c
+
+		case revision.CaretType:
+			// The chain stands on a commit: ^{commit}, ^{} and ^{object} ask
+			// for nothing more, a tree or a blob is not a commit.
+			switch item.ObjectType {
+			case "commit", "tag", "object":
+			default:
+				return &plumbing.ZeroHash, fmt.Errorf("%w: ^{%s} does not name a commit", plumbing.ErrInvalidType, item.ObjectType)
+			}
+
+		default:
+			// A component this resolver does not implement (@{n}, @{date},
+			// @{upstream}, :path ...) must not be skipped: what is left of
+			// the expression names another object.
+			return &plumbing.ZeroHash, fmt.Errorf("revision %q: component %T is not supported", rev, item)
 		}
 	}
 
